@@ -1,5 +1,6 @@
 import EgVerif.Proofs.LoadBalance
 import EgVerif.Gen.FactsC04
+import EgVerif.Proofs.LoadBalanceIR
 /-!
 # C04 — load balancers pick only live pool members, fairly / stickily, never failing
 
@@ -368,5 +369,39 @@ theorem source_facts :
     Gen.FactsC04.poolStoresInCreate = 1 ∧ Gen.FactsC04.doHandleChoices = 1 ∧
     Gen.FactsC04.doHandleNilReturn = "serverPoolError{http.StatusServiceUnavailable, resultInternalError}" := by
   decide
+
+/-! ### Regenerated tie by translation (`notes/IR.md`)
+
+`Gen.FactsC04IR.*IR` are re-translated on every run from the current bodies of the five `ChooseServer`
+methods and `ServerPoolSpec.Validate` (go/ast → Lean, `harness/factextract/irlib.go`; `rand.Intn(n)`
+guarded by `n > 0`, the weighted loop / the counting loop as generated structural recursion); each is
+the model function on every input. Proofs: `Proofs/LoadBalanceIR.lean`. -/
+
+theorem chooseRandom_regenerated_from_source (ss : List Server) (x : Sel) :
+    Gen.FactsC04IR.extractionFailed = false ∧ Gen.FactsC04IR.chooseRandomIR ss x = choose ⟨.random, ss⟩ x :=
+  ⟨by decide, LoadBalance.chooseRandom_regenerated_from_source ss x⟩
+
+theorem chooseRoundRobin_regenerated_from_source (ss : List Server) (x : Sel) :
+    Gen.FactsC04IR.extractionFailed = false ∧
+      Gen.FactsC04IR.chooseRoundRobinIR ss x = choose ⟨.roundRobin, ss⟩ x :=
+  ⟨by decide, LoadBalance.chooseRoundRobin_regenerated_from_source ss x⟩
+
+theorem chooseWeighted_regenerated_from_source (ss : List Server) (x : Sel) :
+    Gen.FactsC04IR.extractionFailed = false ∧
+      Gen.FactsC04IR.chooseWeightedIR ss x = choose ⟨.weightedRandom, ss⟩ x :=
+  ⟨by decide, LoadBalance.chooseWeighted_regenerated_from_source ss x⟩
+
+theorem chooseIPHash_regenerated_from_source (ss : List Server) (x : Sel) :
+    Gen.FactsC04IR.extractionFailed = false ∧ Gen.FactsC04IR.chooseIPHashIR ss x = choose ⟨.ipHash, ss⟩ x :=
+  ⟨by decide, LoadBalance.chooseIPHash_regenerated_from_source ss x⟩
+
+theorem chooseHeaderHash_regenerated_from_source (ss : List Server) (x : Sel) :
+    Gen.FactsC04IR.extractionFailed = false ∧
+      Gen.FactsC04IR.chooseHeaderHashIR ss x = choose ⟨.headerHash, ss⟩ x :=
+  ⟨by decide, LoadBalance.chooseHeaderHash_regenerated_from_source ss x⟩
+
+theorem validate_regenerated_from_source (sps : PoolSpec) :
+    Gen.FactsC04IR.extractionFailed = false ∧ Gen.FactsC04IR.validateIR sps = validate sps :=
+  ⟨by decide, LoadBalance.validate_regenerated_from_source sps⟩
 
 end EgVerif.C04
